@@ -400,6 +400,7 @@ theorem rstep_reach (cfg : RCfg) (s : RSt) (a : RAct) (h : RReach s) : RReach (r
     split
     · exact h
     · split <;> exact h
+  | failSend t => simp only [rstep]; split <;> exact h
 
 theorem rrun_reach (cfg : RCfg) : ∀ (acts : List RAct) (s : RSt), RReach s → RReach (rrun cfg acts s) := by
   intro acts
@@ -408,7 +409,7 @@ theorem rrun_reach (cfg : RCfg) : ∀ (acts : List RAct) (s : RSt), RReach s →
   | cons a acts ih => intro s h; exact ih _ (rstep_reach cfg s a h)
 
 theorem rstep_inv (cfg : RCfg) (hc : cfg.increfBeforeSend = true) (hk : cfg.recvKnownDecref = true) (hd : cfg.deinitDecref = true)
-    (s : RSt) (a : RAct) (h : RInv s) (hre : RReach s) : RInv (rstep cfg s a) := by
+    (hp : cfg.packFailDecref = true) (s : RSt) (a : RAct) (h : RInv s) (hre : RReach s) : RInv (rstep cfg s a) := by
   obtain ⟨h1, h2, h3⟩ := h
   cases hf : s.freed with
   | true =>
@@ -437,6 +438,11 @@ theorem rstep_inv (cfg : RCfg) (hc : cfg.increfBeforeSend = true) (hk : cfg.recv
     | drop t => simp [rstep, RInv, hf, h3, hr]
     | use t =>
       simp only [rstep]
+      split
+      · simp [RInv, hf, h3, hr]
+      · exact ⟨h1, h2, h3⟩
+    | failSend t =>
+      simp only [rstep, hp]
       split
       · simp [RInv, hf, h3, hr]
       · exact ⟨h1, h2, h3⟩
@@ -469,12 +475,13 @@ theorem rstep_inv (cfg : RCfg) (hc : cfg.increfBeforeSend = true) (hk : cfg.recv
           exact ⟨List.eq_nil_of_length_eq_zero hz, by omega⟩
       · exact ⟨h1, h2, h3⟩
 
-theorem rrun_inv (cfg : RCfg) (hc : cfg.increfBeforeSend = true) (hk : cfg.recvKnownDecref = true) (hd : cfg.deinitDecref = true) :
+theorem rrun_inv (cfg : RCfg) (hc : cfg.increfBeforeSend = true) (hk : cfg.recvKnownDecref = true) (hd : cfg.deinitDecref = true)
+    (hp : cfg.packFailDecref = true) :
     ∀ (acts : List RAct) (s : RSt), RInv s → RReach s → RInv (rrun cfg acts s) := by
   intro acts
   induction acts with
   | nil => intro s h _; exact h
-  | cons a acts ih => intro s h hre; exact ih _ (rstep_inv cfg hc hk hd s a h hre) (rstep_reach cfg s a hre)
+  | cons a acts ih => intro s h hre; exact ih _ (rstep_inv cfg hc hk hd hp s a h hre) (rstep_reach cfg s a hre)
 
 theorem rreach_init : RReach {} := by intro t ht; simp at ht; simp [ht]
 
@@ -482,11 +489,11 @@ theorem rreach_init : RReach {} := by intro t ht; simp at ht; simp [ht]
     interleaving of send / receive / drop / sweep / carrier-finalizer (`discard`) steps of any number of threads, the count equals the number of holders
     (threads with a table entry + copies in transit); the object is freed only when there is none; nobody uses it after. -/
 theorem refcount_ge_reachers (cfg : RCfg) (hc : cfg.increfBeforeSend = true) (hk : cfg.recvKnownDecref = true)
-    (hd : cfg.deinitDecref = true) (acts : List RAct) :
+    (hd : cfg.deinitDecref = true) (hp : cfg.packFailDecref = true) (acts : List RAct) :
     let s := rrun cfg acts {}
     (s.freed = false → s.refcount = s.holds.length + s.transit) ∧ (s.freed = true → s.holds = [] ∧ s.transit = 0) ∧
       s.useAfterFree = false :=
-  rrun_inv cfg hc hk hd acts {} (by simp [RInv]) rreach_init
+  rrun_inv cfg hc hk hd hp acts {} (by simp [RInv]) rreach_init
 
 /-! #### locks (`ev/lock`, `ev/rwlock`) and channels: valid while reachable, released after the last drop
 
@@ -499,10 +506,10 @@ theorem refcount_ge_reachers (cfg : RCfg) (hc : cfg.increfBeforeSend = true) (hk
     references the object, or a copy of the pointer is inside a message in transit, the object has not been freed - and no
     lock / unlock / channel operation ever touched freed memory -/
 theorem shared_valid_while_reachable (cfg : RCfg) (hc : cfg.increfBeforeSend = true) (hk : cfg.recvKnownDecref = true)
-    (hd : cfg.deinitDecref = true) (acts : List RAct) :
+    (hd : cfg.deinitDecref = true) (hp : cfg.packFailDecref = true) (acts : List RAct) :
     let s := rrun cfg acts {}
     (∀ t, s.reach t = true → s.freed = false) ∧ (0 < s.transit → s.freed = false) ∧ s.useAfterFree = false := by
-  have h := rrun_inv cfg hc hk hd acts {} (by simp [RInv]) rreach_init
+  have h := rrun_inv cfg hc hk hd hp acts {} (by simp [RInv]) rreach_init
   have hr := rrun_reach cfg acts {} rreach_init
   refine ⟨fun t ht => ?_, fun htr => ?_, h.2.2⟩
   · cases hf : (rrun cfg acts {}).freed with
@@ -587,7 +594,7 @@ example : (rrun { increfBeforeSend := true, recvKnownDecref := true } [.send 0, 
 def RLive (s : RSt) : Prop := s.freed = false → 0 < s.refcount
 
 theorem rstep_live (cfg : RCfg) (hc : cfg.increfBeforeSend = true) (hk : cfg.recvKnownDecref = true) (hd : cfg.deinitDecref = true)
-    (hz : cfg.decrefFreesAtZero = true) (s : RSt) (a : RAct) (h : RInv s) (hl : RLive s) : RLive (rstep cfg s a) := by
+    (hz : cfg.decrefFreesAtZero = true) (hp : cfg.packFailDecref = true) (s : RSt) (a : RAct) (h : RInv s) (hl : RLive s) : RLive (rstep cfg s a) := by
   cases hf : s.freed with
   | true =>
     obtain ⟨hh, ht⟩ := h.2.1 hf
@@ -596,7 +603,7 @@ theorem rstep_live (cfg : RCfg) (hc : cfg.increfBeforeSend = true) (hk : cfg.rec
     · rename_i t; split at hnf <;> simp [hf] at hnf
   | false =>
     have hr := h.1 hf
-    have hp := hl hf
+    have hpos := hl hf
     cases a with
     | send t =>
       simp only [rstep, hc, if_true]
@@ -611,12 +618,17 @@ theorem rstep_live (cfg : RCfg) (hc : cfg.increfBeforeSend = true) (hk : cfg.rec
         · rename_i hm
           have : 0 < s.holds.length := List.length_pos_of_mem hm
           intro _; show 0 < s.refcount - 1; omega
-        · intro _; exact hp
-    | drop t => intro _; exact hp
+        · intro _; exact hpos
+    | drop t => intro _; exact hpos
     | use t =>
       simp only [rstep]
       split
-      · intro _; exact hp
+      · intro _; exact hpos
+      · exact hl
+    | failSend t =>
+      simp only [rstep, hp]
+      split
+      · intro _; simpa using hpos
       · exact hl
     | discard =>
       simp only [rstep, hd, hz, if_true, Bool.true_and]
@@ -636,14 +648,14 @@ theorem rstep_live (cfg : RCfg) (hc : cfg.increfBeforeSend = true) (hk : cfg.rec
       · exact hl
 
 theorem rrun_inv_live (cfg : RCfg) (hc : cfg.increfBeforeSend = true) (hk : cfg.recvKnownDecref = true) (hd : cfg.deinitDecref = true)
-    (hz : cfg.decrefFreesAtZero = true) :
+    (hz : cfg.decrefFreesAtZero = true) (hp : cfg.packFailDecref = true) :
     ∀ (acts : List RAct) (s : RSt), RInv s → RReach s → RLive s → RInv (rrun cfg acts s) ∧ RLive (rrun cfg acts s) := by
   intro acts
   induction acts with
   | nil => intro s h _ hl; exact ⟨h, hl⟩
   | cons a acts ih =>
     intro s h hre hl
-    exact ih _ (rstep_inv cfg hc hk hd s a h hre) (rstep_reach cfg s a hre) (rstep_live cfg hc hk hd hz s a h hl)
+    exact ih _ (rstep_inv cfg hc hk hd hp s a h hre) (rstep_reach cfg s a hre) (rstep_live cfg hc hk hd hz hp s a h hl)
 
 /-- ★ ... and are released after the last reference is dropped, whichever step drops it: at EVERY point of EVERY interleaving
     of send / receive / use / drop / sweep steps and finalizer runs of carrying channels with undelivered messages, an
@@ -651,11 +663,11 @@ theorem rrun_inv_live (cfg : RCfg) (hc : cfg.increfBeforeSend = true) (hk : cfg.
     last reference (a collector's sweep, or the clean-up unmarshal of an undelivered message) finalized it.  No object is
     ever stranded with a zero count.  (Needs all four facts of the current source; see the two counterexamples.) -/
 theorem shared_never_stranded (cfg : RCfg) (hc : cfg.increfBeforeSend = true) (hk : cfg.recvKnownDecref = true)
-    (hd : cfg.deinitDecref = true) (hz : cfg.decrefFreesAtZero = true) (acts : List RAct) :
+    (hd : cfg.deinitDecref = true) (hz : cfg.decrefFreesAtZero = true) (hp : cfg.packFailDecref = true) (acts : List RAct) :
     let s := rrun cfg acts {}
     s.holds = [] → s.transit = 0 → s.freed = true := by
   intro s hh ht
-  have h := rrun_inv_live cfg hc hk hd hz acts {} (by simp [RInv]) rreach_init (by simp [RLive])
+  have h := rrun_inv_live cfg hc hk hd hz hp acts {} (by simp [RInv]) rreach_init (by simp [RLive])
   cases hf : s.freed with
   | true => rfl
   | false =>
@@ -667,12 +679,12 @@ theorem shared_never_stranded (cfg : RCfg) (hc : cfg.increfBeforeSend = true) (h
 
 /-- the same from ANY state the protocol can be in (invariants hold): whatever happens next, unreferenced ⇒ freed -/
 theorem never_stranded_from (cfg : RCfg) (hc : cfg.increfBeforeSend = true) (hk : cfg.recvKnownDecref = true)
-    (hd : cfg.deinitDecref = true) (hz : cfg.decrefFreesAtZero = true) (acts : List RAct) (s0 : RSt)
+    (hd : cfg.deinitDecref = true) (hz : cfg.decrefFreesAtZero = true) (hp : cfg.packFailDecref = true) (acts : List RAct) (s0 : RSt)
     (hi : RInv s0) (hr : RReach s0) (hl : RLive s0) :
     let s := rrun cfg acts s0
     s.holds = [] → s.transit = 0 → s.freed = true := by
   intro s hh ht
-  have h := rrun_inv_live cfg hc hk hd hz acts s0 hi hr hl
+  have h := rrun_inv_live cfg hc hk hd hz hp acts s0 hi hr hl
   cases hf : s.freed with
   | true => rfl
   | false =>
@@ -728,12 +740,13 @@ theorem discards_empty_transit (cfg : RCfg) : ∀ (n : Nat) (s : RSt), s.transit
     once no thread references the object any more, the collectors of the threads that list it and the finalizers of the
     channels that still carry a copy - sweeps first, then the carriers - leave it freed (whoever comes last frees it) -/
 theorem shared_released_after_drops_and_discards (cfg : RCfg) (hc : cfg.increfBeforeSend = true) (hk : cfg.recvKnownDecref = true)
-    (hd : cfg.deinitDecref = true) (hz : cfg.decrefFreesAtZero = true) (s : RSt) (hi : RInv s) (hr : RReach s) (hl : RLive s)
+    (hd : cfg.deinitDecref = true) (hz : cfg.decrefFreesAtZero = true) (hp : cfg.packFailDecref = true) (s : RSt) (hi : RInv s) (hr : RReach s)
+    (hl : RLive s)
     (hnd : s.holds.Nodup) (hre : ∀ t, s.reach t = false) :
     (rrun cfg (s.holds.map RAct.sweep ++ List.replicate s.transit RAct.discard) s).freed = true := by
   have h1 := sweeps_empty_holds cfg s.holds s rfl hnd hre
   have h2 := discards_empty_transit cfg s.transit (rrun cfg (s.holds.map RAct.sweep) s) h1.2.1
-  have hfin := never_stranded_from cfg hc hk hd hz (s.holds.map RAct.sweep ++ List.replicate s.transit RAct.discard) s hi hr hl
+  have hfin := never_stranded_from cfg hc hk hd hz hp (s.holds.map RAct.sweep ++ List.replicate s.transit RAct.discard) s hi hr hl
   apply hfin
   · rw [rrun_append, h2.2, h1.1]
   · rw [rrun_append]; exact h2.1
@@ -757,6 +770,16 @@ theorem deinit_leak_counterexample :
       [.send 0, .discard, .drop 0, .sweep 0] {}
     s.freed = false ∧ s.holds = [] ∧ s.transit = 0 ∧ s.refcount = 1 := by
   decide
+
+/-- a give that fails to pack after the pointer was written into the buffer, without the clean-up of the partial buffer
+    (repo ≤ fe0649e): the reference taken for the transit is never given back - after the only holder dropped the object and
+    collected, the count is still 1 -/
+theorem pack_failure_leak_counterexample :
+    let s := rrun { increfBeforeSend := true, recvKnownDecref := true, packFailDecref := false } [.failSend 0, .drop 0, .sweep 0] {}
+    s.freed = false ∧ s.holds = [] ∧ s.transit = 0 ∧ s.refcount = 1 := by
+  decide
+
+example : (rrun { increfBeforeSend := true, recvKnownDecref := true } [.failSend 0, .send 0, .failSend 0, .discard, .drop 0, .sweep 0] {}).freed = true := by decide
 
 -- non-vacuity: both orders of "holder goes away" / "carrier is finalized" end with the object freed, never used after
 example : (rrun { increfBeforeSend := true, recvKnownDecref := true } [.send 0, .drop 0, .sweep 0, .discard] {}).freed = true := by decide
